@@ -117,6 +117,20 @@ Proof.
           -- inversion H; subst. split; [exact W|]. split; [exact L|].
              intros t Ht. rewrite TR in Ht. inversion Ht; subst. split; [exact C|]. apply R. exact TR.
         * apply Done; [cbn [tokrank]; rewrite B; exact SF|exact H].
+    - (* delegate call *)
+      destruct (callr T) as [q|] eqn:B.
+      + assert (TR : tokrank T (TLP :: ts) = Some q) by (cbn [tokrank]; exact B).
+        destruct (continues q p) eqn:C.
+        * destruct (slots T f S0 ts) as [[a r0]|] eqn:E; [|discriminate].
+          destruct r0 as [|t0 r0]; [discriminate|]. destruct t0; try discriminate.
+          apply IHs in E.
+          eapply IHl; [| | |exact H].
+          -- cbn [wf]. exists q. repeat split; auto.
+          -- cbn [ls_ok]. split; [|exact L]. exists q. auto.
+          -- intros t _. exact I.
+        * inversion H; subst. split; [exact W|]. split; [exact L|].
+          intros t Ht. rewrite TR in Ht. inversion Ht; subst. split; [exact C|]. apply R. exact TR.
+      + apply Done; [cbn [tokrank]; exact B|exact H].
     - (* index *)
       destruct (bin T sym_index) as [q|] eqn:B.
       + assert (TR : tokrank T (TLB :: ts) = Some q) by (cbn [tokrank]; exact B).
